@@ -476,6 +476,9 @@ class Log():
             # Now that we know what type this variable has, add it to the log
             # config again with the correct type
             logconf.add_variable(name, var.ctype)
+        # They are resolved now, do not add them once more if the
+        # configuration is added again (after a reconnect for instance)
+        logconf.default_fetch_as = []
 
         # Now check that all the added variables are in the TOC and that
         # the total size constraint of a data packet with logging data is
